@@ -17,8 +17,7 @@ VARIABLES cs, res
 
 (* Initial states are the (operator, left operand) seeds; each seed expands *)
 (* into its cases (so the expansion runs on all workers).                   *)
-Init == /\ cs \in {Un(o, a, 0) : o \in BinOps \cup UnOps, a \in Lefts}
-        /\ res = [k |-> "seed"]
+Init == cs \in Seeds /\ res = [k |-> "seed"]
 
 Evaluate ==
   /\ res.k = "seed"
